@@ -101,9 +101,13 @@ class VttCue:
     """Sets the WebVTT text alignment cue setting"""
     self._textalign = textalign
 
+  # the tags that the writer emits (a literal < in the text is always escaped)
+  _TAG_RE = re.compile(r"<[^<>]*>")
+
   def is_only_whitespace_or_empty(self):
-    """Returns whether the paragraph text contains only whitespace or is empty"""
-    return len(self._text) == 0 or self._text.isspace()
+    """Returns whether the paragraph text, tags excluded, contains only whitespace or is empty"""
+    text = VttCue._TAG_RE.sub("", self._text)
+    return len(text) == 0 or text.isspace()
 
   def normalize_eol(self):
     """Remove line breaks at the beginning and end of the paragraph, and replace
